@@ -6,6 +6,7 @@
 //!   applyraw N T <2*len hex> <expr>  -> OK <raw buffer>   (register built over a raw buffer)
 //!   applyseq N J <count> <expr>*     -> OK <raw buffer>   (factors applied one after another)
 //!   probe N J <cnt> <idx...> <expr>  -> OK <amplitudes at the listed indices>
+//!   singlec N IDX MASK <expr>        -> like matrix, for `SingleOp::c(MASK)` called on element IDX of the queue
 //! `REFUSED` when `.c()` returned None; panics are classified by main.
 
 use qvnt::prelude::*;
@@ -30,6 +31,30 @@ pub fn run(toks: &[&str]) -> String {
                 Built::Op(o) => {
                     let m = o.matrix(n);
                     let mut s = format!("OK {}", structure(&o));
+                    for row in &m {
+                        s.push_str(&fmt_c(row));
+                    }
+                    s
+                }
+            }
+        }
+        "singlec" => {
+            let n = parse_n(t.next().unwrap());
+            let idx = parse_n(t.next().unwrap());
+            let mask = parse_n(t.next().unwrap());
+            match parse(&mut t) {
+                Built::Refused => "REFUSED".into(),
+                Built::Op(o) => {
+                    let o2: MultiOp = if idx < o.len() {
+                        match o[idx].clone().c(mask) {
+                            None => return "REFUSED".into(),
+                            Some(s) => s.into(),
+                        }
+                    } else {
+                        op::id()
+                    };
+                    let m = o2.matrix(n);
+                    let mut s = format!("OK {}", structure(&o2));
                     for row in &m {
                         s.push_str(&fmt_c(row));
                     }
